@@ -282,14 +282,14 @@ def check_generic(case, out):
 
 
 FACETS = [
-    Facet("roundtrip", lambda tier: roundtrip_cases(("frac",)), check_roundtrip, quick=400, thorough=7000,
+    Facet("roundtrip", lambda tier: roundtrip_cases(("frac",)), check_roundtrip, quick=700, thorough=7000,
           rule="insert by the reference, remove by the library: exact inverse"),
     Facet("roundtrip-float", lambda tier: roundtrip_cases(("float", "npfloat")), check_roundtrip, quick=120,
           thorough=2000, rule="float round trip to 1e-7"),
-    Facet("generic", lambda tier: generic_cases(("frac",)), check_generic, quick=500, thorough=8000,
+    Facet("generic", lambda tier: generic_cases(("frac",)), check_generic, quick=900, thorough=8000,
           rule="removable => exact; otherwise refused+unchanged or within the bound; tolerance=None interpolates"),
     Facet("generic-float", lambda tier: generic_cases(("float",)), check_generic, quick=150, thorough=2500,
           rule="float data: safe direction only"),
-    Facet("rational-special", lambda tier: special_cases(), check_generic, quick=200, thorough=3000,
+    Facet("rational-special", lambda tier: special_cases(), check_generic, quick=400, thorough=3000,
           rule="rational curves whose weight function alone / numerator alone / constant weights allow the removal"),
 ]
